@@ -16,7 +16,8 @@ RULE = ("Exhaustive: every SAM-valid CIGAR over {M,=,X,I,D,N,S,H} with <= 6 (qui
         "lengths from {1,2,3}; random: CIGARs with up to 60 operations and lengths up to 5000 through pysam "
         "AlignedSegment + AlignmentInfo; polyA stage: alignments whose last/first 1-3 exons are aligned A/T runs with "
         "optional soft-clipped tails, through the real PolyAFinder/PolyAFixer. A case = one CIGAR (distinct by "
-        "construction in the enumeration); non-trivial = >= 1 N and an indel or clip adjacent to a block edge.")
+        "construction in the enumeration); non-trivial = >= 1 N and an indel or clip adjacent to a block edge. "
+        "PolyA cases with hard clips are evaluated with and without them (class with_hard_clips).")
 ASSUMPTIONS = ["segments between two N that contain no aligned base (only I/D) are never emitted by aligners; their "
                "content is UNSPECIFIED (IsoQuant drops them), order/disjointness is still required",
                "read blocks are 0-based closed query intervals counting soft-clipped but not hard-clipped bases"]
